@@ -265,6 +265,51 @@ func (c *ctx) checkSqrt(fn string, v *big.Int) (*failure, *big.Int) {
 	if p {
 		return c.fail("sqrt_panic", cs, fn+" panicked: "+msg), nil
 	}
+	// the sibling entry points: the Must form returns the same root and panics exactly when the plain form errors;
+	// the Mut form returns the same root (it may clobber its argument); the plain form leaves its argument untouched
+	{
+		var rMust, rMut, argAfter *big.Int
+		var errMut error
+		pMust, _ := try(func() {
+			if prec == 18 {
+				rMust = om.MustMonotonicSqrt(dec(v)).BigInt()
+			} else {
+				rMust = om.MustMonotonicSqrtBigDec(bigDec(v)).BigInt()
+			}
+		})
+		pMut, mMut := try(func() {
+			if prec == 18 {
+				var d om.Dec
+				if d, errMut = om.MonotonicSqrtMut(dec(v)); errMut == nil {
+					rMut = d.BigInt()
+				}
+				a := dec(v)
+				_, _ = om.MonotonicSqrt(a)
+				argAfter = a.BigInt()
+			} else {
+				var d om.BigDec
+				if d, errMut = om.MonotonicSqrtBigDecMut(bigDec(v)); errMut == nil {
+					rMut = d.BigInt()
+				}
+				a := bigDec(v)
+				_, _ = om.MonotonicSqrtBigDec(a)
+				argAfter = a.BigInt()
+			}
+		})
+		c.r.Transitions += 3
+		switch {
+		case pMust != (err != nil):
+			return c.fail("sqrt_must_form_differs", cs, fmt.Sprintf("Must%s panicked=%v but %s returned err=%v", fn, pMust, fn, err)), nil
+		case !pMust && rMust.Cmp(r) != 0:
+			return c.fail("sqrt_must_form_differs", cs, fmt.Sprintf("Must%s=%s, %s=%s", fn, fmtDec(rMust, prec), fn, fmtDec(r, prec))), nil
+		case pMut:
+			return c.fail("sqrt_mut_form_differs", cs, fn+"Mut panicked: "+mMut), nil
+		case (errMut != nil) != (err != nil) || (err == nil && rMut.Cmp(r) != 0):
+			return c.fail("sqrt_mut_form_differs", cs, fmt.Sprintf("%sMut returned (%v, %v), %s returned (%v, %v)", fn, rMut, errMut, fn, r, err)), nil
+		case argAfter.Cmp(v) != 0:
+			return c.fail("sqrt_argument_mutated", cs, fmt.Sprintf("%s changed its argument to %s", fn, fmtDec(argAfter, prec))), nil
+		}
+	}
 	if v.Sign() < 0 {
 		if err != nil {
 			c.vac("sqrt_negative_errors")
